@@ -5,11 +5,18 @@ package db19
 import (
 	. "github.com/apmckinlay/gsuneido/core"
 	"github.com/apmckinlay/gsuneido/verifshim/vsched"
+	"github.com/apmckinlay/gsuneido/verifshim/vsync"
 )
 
 // VerifSetTimestamp sets the server's next timestamp (start-value alphabet of
 // the C34 harness); called before any thread uses timestamps.
-func VerifSetTimestamp(d SuDate) { timestamp = d }
+// The lock is a package global: an execution can end while the (daemon) ticker
+// is parked inside its critical section at a statement-level scheduling point,
+// so every execution starts with a fresh one.
+func VerifSetTimestamp(d SuDate) {
+	tsLock = vsync.Mutex{}
+	timestamp = d
+}
 
 // VerifStartTicker starts the real ticker goroutine without resetting the
 // timestamp the way StartTimestamps does.
